@@ -239,9 +239,9 @@ StringReadsBack == done /\ form = "string" => toks = <<Tok("str", n)>>
 BareIff         == done /\ form = "raw"    => (BareOk(n) <=> toks = Ident(n))
 AgreesWithLex   == done /\ form \in Forms => toks = Lex(Input)
 
-\* vacuity witnesses (each must be VIOLATED)
-Witness_EscapedQuote  == ~(done /\ form = "quoted" /\ \E i \in 1..Len(n) : n[i] = "\"")
-Witness_ReservedBare  == ~(done /\ form = "raw" /\ n \in Reserved /\ toks = <<Tok("keyword", n)>>)
-Witness_NewlineSplits == ~(done /\ form = "raw" /\ Len(n) = 2 /\ n[2] = "\n" /\ toks = Ident(<<n[1]>>))
-Witness_BareKept      == ~(done /\ form = "maybe" /\ Len(n) > 1 /\ Input = n)
+\* vacuity witnesses (each must be VIOLATED; pinned to one name so that few states violate them)
+Witness_EscapedQuote  == ~(done /\ form = "quoted" /\ n = <<"a", "\"">> /\ toks = Ident(n))
+Witness_ReservedBare  == ~(done /\ form = "raw" /\ n = <<"s","e","l","e","c","t">> /\ toks = <<Tok("keyword", n)>>)
+Witness_NewlineSplits == ~(done /\ form = "raw" /\ n = <<"a", "\n">> /\ toks = Ident(<<"a">>))
+Witness_BareKept      == ~(done /\ form = "maybe" /\ n = <<"a", "z">> /\ Input = n /\ toks = Ident(n))
 =============================================================================
